@@ -17,6 +17,9 @@ func init() {
 func c07(c *q.Ctx) {
 	permTree(c)
 	aclValidators(c)
+	// inputs a contract spends on the initiator's behalf are exempt from the signer check of verifyUTXOPermission: the
+	// replay reader is what ties EVERY one of them to the payer the contract named
+	utxoReaderRules(c)
 	const st = "bcs/ledger/xledger/state::"
 	const th = "bcs/ledger/xledger/state/utxo/txhash::"
 	const au = "kernel/permission/acl/utils::"
@@ -128,22 +131,7 @@ func c07(c *q.Ctx) {
 		}
 		c.Effect(vs, q.Eff{Spec: "State.verifyXuperSign", Arg: 1, Glob: "p2", Req: []q.Cond{{Canon: "(nil == p1.XuperSign)", Sense: false}}, Why: "aggregated-signature transactions use the XuperSign path with the same digest", Rule: "K11"})
 	}
-	xs := c.Fn(st + "(*State).verifyXuperSign")
-	if xs != nil {
-		c.Gate(xs, "VerifyAddressUsingPublicKey", q.ToSuccess(), q.Opt{K1Only: true})
-		c.Gate(xs, "VerifyXuperSignature", q.ToSuccess(), q.Opt{})
-		c.Gate(xs, "GetEcdsaPublicKeyFromJsonStr", q.ToSuccess(), q.Opt{K1Only: true})
-		c.Guard(xs, q.Cond{Canon: "(len(p1.XuperSign.PublicKeys) == len(*p1.Initiator*))", Sense: false}, q.ToSuccess(), q.Opt{})
-		c.ArgIs(xs, "VerifyXuperSignature", 1, "p1.XuperSign.Signature", 1, "the aggregated signature of the transaction")
-		c.ArgIs(xs, "VerifyXuperSignature", 2, "p2", 1, "over the digest passed in")
-		// one signature marks EVERY listed address as having signed only if it binds every listed key: the crypto
-		// library checks a plain ECDSA/Schnorr signature against the first key alone and a ring signature proves
-		// that one unnamed key signed; only a multi-signature covers all of them
-		c.OnlyUnder(xs, q.ToSuccess(), []q.Cond{
-			{Canon: "(1 < len(*GetEcdsaPublicKeyFromJsonStr(*p1.XuperSign.PublicKeys[])#0*))", Sense: false},
-			{Canon: "(\"MultiSig\" == *.SigType)", Sense: true},
-		}, "several listed keys are all marked as signers only behind a multi-signature")
-	}
+	xuperSignRules(c)
 	vu := c.Fn(st + "(*State).verifyUTXOPermission")
 	if vu != nil {
 		c.Gate(vu, "utils::IdentifyAccount", q.ToSuccess(), q.Opt{K1Only: true})
@@ -231,5 +219,31 @@ func c07(c *q.Ctx) {
 			"timerTx=false,coinbase=true,inPool=true":  "already verified when it was admitted to the pool",
 			"timerTx=true,coinbase=true,inPool=true":   "already verified when it was admitted to the pool",
 		}, "play path", "(#i < len(p2))")
+	}
+}
+
+// xuperSignRules (C07, C11): the aggregated-signature path. What it returns is the set of verified identities that the
+// permission checks (UTXO owner, RW-set, contract owner) take on trust.
+func xuperSignRules(c *q.Ctx) {
+	const st = "bcs/ledger/xledger/state::"
+	xs := c.Fn(st + "(*State).verifyXuperSign")
+	if xs != nil {
+		c.Gate(xs, "VerifyAddressUsingPublicKey", q.ToSuccess(), q.Opt{K1Only: true})
+		c.Gate(xs, "VerifyXuperSignature", q.ToSuccess(), q.Opt{})
+		c.Gate(xs, "GetEcdsaPublicKeyFromJsonStr", q.ToSuccess(), q.Opt{K1Only: true})
+		c.Guard(xs, q.Cond{Canon: "(len(p1.XuperSign.PublicKeys) == len(*p1.Initiator*))", Sense: false}, q.ToSuccess(), q.Opt{})
+		// every name that comes back as a verified identity is in the list that is matched against the public keys:
+		// the initiator unconditionally, each auth_require signer once
+		c.Effect(xs, q.Eff{Spec: "append", Arg: 1, Glob: "[p1.Initiator]", Exact: true, Why: "the initiator is always among the addresses a key must match", Rule: "K2"})
+		c.MapStoreKeys(xs, "newmap<map[string]bool>", []string{"p1.Initiator", "strings.Split(p1.AuthRequire[],\"/\")[last]"}, "the verified set holds the initiator and the last element of each signer path, nothing else")
+		c.ArgIs(xs, "VerifyXuperSignature", 1, "p1.XuperSign.Signature", 1, "the aggregated signature of the transaction")
+		c.ArgIs(xs, "VerifyXuperSignature", 2, "p2", 1, "over the digest passed in")
+		// one signature marks EVERY listed address as having signed only if it binds every listed key: the crypto
+		// library checks a plain ECDSA/Schnorr signature against the first key alone and a ring signature proves
+		// that one unnamed key signed; only a multi-signature covers all of them
+		c.OnlyUnder(xs, q.ToSuccess(), []q.Cond{
+			{Canon: "(1 < len(*GetEcdsaPublicKeyFromJsonStr(*p1.XuperSign.PublicKeys[])#0*))", Sense: false},
+			{Canon: "(\"MultiSig\" == *.SigType)", Sense: true},
+		}, "several listed keys are all marked as signers only behind a multi-signature")
 	}
 }
